@@ -129,7 +129,7 @@ Sweep(objs, brks, cur, acc) ==
 \* the file sample), then one addition per hit-sound bit in the order finish, whistle, clap
 HasBit(hs, b) == (hs \div b) % 2 = 1
 OneSmp(name, b, vol, cu, layered) ==
-    [name |-> name, bank |-> IF b = 0 THEN 1 ELSE b, spec |-> b # 0, vol |-> vol, cu |-> cu,
+    [name |-> name, bank |-> IF b = 0 THEN 1 ELSE b, spec |-> b # 0, vol |-> IF vol < 0 THEN 0 ELSE vol, cu |-> cu,      \* a negative volume is read as 0
      suffix |-> IF cu >= 2 THEN cu ELSE 0, layered |-> layered]
 ParsedSamples(o) ==
     LET ab == IF o.abank # 0 THEN o.abank ELSE o.bank
